@@ -783,6 +783,8 @@ struct MemWorld : World
                    (unsigned long long)calls);
       return;
     }
+    if (o != OK && op.a[3] == 1 && calls != 0)
+      C->violate("C04", "null_not_preserved@malloc", "the allocator of sandbox #%d answered 0 (out of memory): the application must get a null pointer, got %s: %s", s, oname(o), g_last_abort_msg.c_str());
     if (o == OK) {
       if (op.a[3] == 1 && p != nullptr)
         C->violate("C04", "null_not_preserved@malloc", "backend returned representation 0, application got a non-null pointer");
@@ -1305,10 +1307,13 @@ struct MemWorld : World
       uint32_t celloff = (uint32_t)((uintptr_t)st.pcell.UNSAFE_unverified() - st.base());
       PT prev;
       memcpy(&prev, st.impl()->gptr(celloff), sizeof prev);
+      uint64_t tr_before = sim::g_fn_translations;
       o = attempt([&] { (*cell).assign_raw_pointer(*st.sb, raw); });
       PT now;
       memcpy(&now, st.impl()->gptr(celloff), sizeof now);
-      if (o != OK && now != prev)
+      if (o != OK && sim::g_fn_translations != tr_before)
+        C->violate("C02", std::string("refused_address_was_given_to_the_backend_for_translation@") + opn, "a function address that is refused reached the backend's address translation (%llu calls) - where a backend with a call table enters it", (unsigned long long)(sim::g_fn_translations - tr_before));
+      else if (o != OK && now != prev)
         C->violate("C02", std::string("destination_changed_by_refused_assignment@") + opn, "function pointer cell %llu -> %llu", (unsigned long long)prev, (unsigned long long)now);
     } else {
       rlbox::tainted<Fn, Sbx> t = nullptr;
